@@ -2,11 +2,13 @@ package props
 
 import (
 	"bytes"
+	"context"
 	"fmt"
 	"hash/fnv"
 	"io"
 	"math/rand"
 	"runtime"
+	"strings"
 	"sync"
 	"sync/atomic"
 	"testing"
@@ -146,6 +148,7 @@ func TestC17(t *testing.T) {
 						return
 					}
 					ls := st.LinkSystem(true)
+					emptyLS := store.New().LinkSystem(true)
 					raw, err := loadRaw(ls, linkCid(l))
 					if err != nil {
 						c.Harness("load: %v", err)
@@ -183,6 +186,14 @@ func TestC17(t *testing.T) {
 									name := names[rr.Intn(len(names))] + "\x00~not-a-member"
 									if _, err := node.LookupByString(name); err == nil || !isNotFound(err) {
 										res.diff("LookupByString(%q) of a non-member returned %v concurrently", name, err)
+									}
+								case op == 16:
+									// handing the shared, already reified node to the constructor again (with a
+									// cancelled context and another link system) must hand it back untouched
+									cctx, cancel := context.WithCancel(context.Background())
+									cancel()
+									if got, err := hamt.AttemptHAMTShardFromNode(cctx, node, emptyLS); err != nil || ipld.Node(got) != node {
+										res.diff("AttemptHAMTShardFromNode(reified node) returned (%p, %v), want the same node", got, err)
 									}
 								case op < 18:
 									if got := node.Length(); got != int64(len(names)) {
@@ -248,7 +259,17 @@ func TestC17(t *testing.T) {
 			return root, content
 		}
 	}
+	noData := func(st *store.Store, rr *rand.Rand) (cid.Cid, []byte) {
+		// a dag-pb root with links and no Data field at all, over raw leaves
+		content := gen.Content(rr, "rand", 510)
+		var links []pbLinkSpec
+		for _, ch := range splitChunks(content, 30) {
+			links = append(links, pbLinkSpec{Name: strp(""), Tsize: u64p(uint64(len(ch))), Cid: st.PutBlock(1, cid.Raw, ch)})
+		}
+		return st.PutBlock(1, cid.DagProtobuf, encodePB(nil, false, links)), content
+	}
 	files := []fileCfg{
+		{"direct-nodata", noData},
 		{"built-w3-4level", builtFile(3, "size-16", 1000)},
 		{"built-w174-2level", builtFile(174, "size-1024", 40960)},
 		{"hand-pb-nobs", handF(handFileOpts{Width: 3, PBLeaves: true, NoBlockSize: true, LeafType: 2}, 600, 20)},
@@ -271,7 +292,12 @@ func TestC17(t *testing.T) {
 					for round := 0; round < rounds; round++ {
 						hs := &hookState{seed: c.Seed + uint64(round), inject: inject}
 						file.SetVerifHook(hs.at)
-						node, err := reify(ls, raw)
+						var node ipld.Node
+						if strings.HasPrefix(fcfg.Name, "direct-") {
+							node, err = file.NewUnixFSFile(bg, raw, ls) // Reify would not make a file of this root
+						} else {
+							node, err = reify(ls, raw)
+						}
 						if err != nil {
 							c.Violation("C17|reify", "%v", err)
 							return
